@@ -282,6 +282,18 @@ bool apply_workload_edit(std::string& d, const Step& st)
     for (size_t i = a->vb; i < a->ve; i++) d[i] = st.arg(1) % 2 ? (char)toupper((unsigned char)d[i]) : (char)tolower((unsigned char)d[i]);
     return true;
   }
+  if (st.op == "prec") {
+    // more significant digits than the archive usually has (a value like 141.44 survives any rounding on output)
+    std::vector<int> v = tags_named({"z-angle", "s-distance", "direction", "distance", "angle", "dh", "azimuth"}); if (v.empty()) return false;
+    const xmlscan::Tag& T = S.tags[v[(size_t)st.arg(0) % v.size()]];
+    for (auto& a : T.attrs) if (d.substr(a.nb, a.ne - a.nb) == "val" && a.ve > a.vb) {
+      std::string val = d.substr(a.vb, a.ve - a.vb);
+      if (val.find('.') == std::string::npos || val.find('-', 1) != std::string::npos || val.find('e') != std::string::npos || !isdigit((unsigned char)val.back())) return false;
+      static const char* X[] = {"1234567", "03125", "7071", "999"};
+      d.insert(a.ve, X[st.arg(1) % 4]); return true;
+    }
+    return false;
+  }
   if (st.op == "noise") {
     // perturb an observed value in its last written digit
     std::vector<int> v = tags_named({"z-angle", "s-distance", "direction", "distance", "angle", "dh", "azimuth"}); if (v.empty()) return false;
@@ -415,8 +427,8 @@ Plan RestartEngine::generate(uint64_t seed, uint64_t, const std::string&)
   if (g.chance(1, 5)) { extra += " --cov-band 1"; later += " --cov-band 1"; }
   p.set("extra", extra); p.set("extra_later", later);
   int ne = g.chance(1, 3) ? 0 : (int)g.range(1, 4);
-  static const char* W[] = {"dh", "dh", "adh", "ext", "dist", "status", "noise"};
-  for (int i = 0; i < ne; i++) { Step s; s.op = W[g.below(7)]; s.a = {(long long)g.below(1000), (long long)g.below(1000), (long long)g.below(1000)}; p.steps.push_back(s); }
+  static const char* W[] = {"dh", "dh", "adh", "ext", "dist", "status", "noise", "prec", "prec"};
+  for (int i = 0; i < ne; i++) { Step s; s.op = W[g.below(9)]; s.a = {(long long)g.below(1000), (long long)g.below(1000), (long long)g.below(1000)}; p.steps.push_back(s); }
   return p;
 }
 
